@@ -270,7 +270,7 @@ def body_gamut(case):
 
 @st.composite
 def est_gamut_case(draw):
-    c = draw(estimator_system(nf=(2, 4), ns=(2, 6), nd=(6, 25), K_kinds=("none", "vector"), base_kinds=("none",)))
+    c = draw(estimator_system(nf=(2, 4), ns=(2, 6), nd=(6, 25), K_kinds=("none", "vector"), base_kinds=("none", "none", "scalar", "vector")))
     F = np.maximum(np.asarray(c["filters"], dtype=float), 1e-3)
     Ssrc = np.maximum(np.asarray(c["sources"], dtype=float), 1e-3)
     c["filters"], c["sources"] = F.tolist(), Ssrc.tolist()
@@ -312,6 +312,22 @@ def body_est_gamut(case):
             h_ref = float(dreye.compute_gamut(corners, metric=case["metric"], seed=case["seed"]))
             h_at = float(est.compute_hull(fraction=False, relative=False, metric=case["metric"], seed=case["seed"], at_l1=at))
             h_at_ref = float(dreye.compute_gamut(slice_candidates(corners, at), metric=case["metric"], seed=case["seed"]))
+    # the fraction is taken against the perfect system (one monochromatic light per wavelength) in the same kind of capture:
+    # absolute capture of the lights for relative=False, K (capture + baseline) for relative=True
+    nd_ = np.asarray(est.filters).shape[-1]
+    with calling("ReceptorEstimator.compute_gamut / reference built by hand"):
+        with np.errstate(all="ignore"):
+            perfect_abs = np.asarray(est.capture(np.eye(nd_)), dtype=float)
+            f_abs_ref = float(dreye.compute_gamut(corners, relative_to=perfect_abs, metric=case["metric"], seed=case["seed"]))
+            Kv = np.broadcast_to(np.asarray(est.K, dtype=float), (A.shape[0],)) if np.ndim(est.K) <= 1 else None
+            if Kv is not None:
+                base_v = np.broadcast_to(np.asarray(est.baseline, dtype=float), (A.shape[0],))
+                f_rel_ref = float(dreye.compute_gamut(Kv * (corners + base_v), relative_to=Kv * (perfect_abs + base_v), metric=case["metric"], seed=case["seed"]))
+    check(abs(g_abs - f_abs_ref) <= 1e-7 * max(abs(f_abs_ref), 1e-12), "est-gamut:fraction-absolute",
+          f"fractional gamut in absolute capture = {g_abs}, gamut of the bound corners relative to the perfect system in absolute capture = {f_abs_ref}")
+    if Kv is not None:
+        check(abs(g_rel - f_rel_ref) <= 1e-7 * max(abs(f_rel_ref), 1e-12), "est-gamut:fraction-relative",
+              f"fractional gamut in relative capture = {g_rel}, reference {f_rel_ref}")
     check(abs(h_abs - h_ref) <= 1e-7 * max(abs(h_ref), 1e-12), "est-gamut:absolute-metric", f"compute_hull(fraction=False) = {h_abs}, metric of the bound corners' captures = {h_ref}")
     check(abs(h_at - h_at_ref) <= 1e-6 * max(abs(h_at_ref), 1e-12), "est-gamut:at-l1", f"compute_hull(at_l1={at:.4g}) = {h_at}, metric of the exact slice = {h_at_ref}")
     nf, ns = len(case["filters"]), len(case["sources"])
